@@ -253,6 +253,18 @@ theorem rejectAll_diags (ps : List Placed) : ∀ d ∈ rejectAll ps, isRejKind d
     · simp [isRejKind]
     · exact ih d hd
 
+/-- if reject mode adds no diagnostic, every top-level property of every object is an evaluated constant -/
+theorem rejectAll_entries_nil (ps : List Placed) (h : rejectAll ps = []) :
+    ∀ p ∈ ps, ∀ e ∈ p.props, e.evalConst = true := by
+  induction ps with
+  | nil => intro p hp; simp at hp
+  | cons q rest ih =>
+    simp only [rejectAll, List.append_eq_nil_iff] at h
+    intro p hp e he
+    rcases List.mem_cons.1 hp with rfl | hp
+    · exact (rejectEntries_nil_iff _).1 h.1.1 e he
+    · exact ih h.2 p hp e he
+
 /-- the reject pass is silent exactly when the support code would be empty and error-free -/
 theorem rejectAll_nil_iff (ps : List Placed) :
     rejectAll ps = [] ↔
